@@ -8,9 +8,9 @@ CONSTANTS
   Emit = TRUE
   KnownClasses = {}
   Rich = FALSE
-  Dev_gram = TRUE
   SingleRangeStr = FALSE
   Styles <- CanonOnly
+  Dev_gram <- GramAsIs
   BaseVal <- BaseEdge
 INVARIANTS Refines RefinesExceptKnown SegmentationOK MapsOK DomainOK BuildForm EmitInv
 CHECK_DEADLOCK FALSE
